@@ -524,9 +524,13 @@ class Parser:
 
         while True:
             peek_kind = stream.peek.type_
+            peek_precedence = self.PRECEDENCES.get(peek_kind, self.PRECEDENCE_LOWEST)
             if (
                 peek_kind in (TokenType.EOF, TokenType.RBRACKET)
-                or self.PRECEDENCES.get(peek_kind, self.PRECEDENCE_LOWEST) < precedence
+                or peek_precedence < precedence
+                # Comparison operators don't associate. Stop here and let the
+                # caller reject `a < b < c`, rather than recursing once per operator.
+                or precedence == peek_precedence == self.PRECEDENCE_RELATIONAL
             ):
                 break
 
